@@ -1,4 +1,5 @@
 #![allow(dead_code, unused_imports, unused_macros, clippy::all)]
+extern crate alloc;
 #[macro_use]
 pub mod sym;
 pub mod io_stubs;
@@ -6,10 +7,12 @@ pub mod spec;
 pub mod util;
 
 pub mod c01;
+pub mod dec;
 
 /// All harness bodies, for the native replayer.
 pub fn registry() -> Vec<(&'static str, fn())> {
     let mut v: Vec<(&'static str, fn())> = Vec::new();
     v.extend_from_slice(c01::HARNESSES);
+    v.extend_from_slice(dec::HARNESSES);
     v
 }
